@@ -131,7 +131,7 @@ func mainRuntime() []byte {
 	// selector = calldataload(0) >> 248
 	a.push(0).op(opCALLDATALOAD).push(248).op(opSHR)
 	sels := []string{"receive", "store", "load", "forward", "revertdata", "invalid", "loop", "destruct", "create", "callmayberevert",
-		"trycall", "balances", "static", "delegate", "ecrecover", "create2", "clear", "destructself"}
+		"trycall", "balances", "static", "delegate", "ecrecover", "create2", "clear", "destructself", "multicall"}
 	for i, s := range sels {
 		a.op(opDUP1).push(uint64(i)).op(opEQ).pushLabel(s).op(opJUMPI)
 	}
@@ -285,6 +285,22 @@ func mainRuntime() []byte {
 
 	a.label("destructself")
 	a.op(opADDRESS).op(opSELFDESTRUCT)
+
+	// multicall: two sequential calls whose failures are swallowed.
+	//   call 1: CALL(100000, A, 0,        [selA][W])   selA = low byte of D
+	//   call 2: CALL(100000, B, CALLVALUE,[selB][W])   selB = second byte of D      (W = C, D at offset 97)
+	a.label("multicall")
+	argC()
+	a.push(1).op(opMSTORE)
+	a.push(97).op(opCALLDATALOAD).push(0xff).op(opAND).push(0).op(opMSTORE8)
+	a.push(0).push(0).push(33).push(0).push(0)
+	argA()
+	a.push(100000).op(opCALL).op(opPOP)
+	a.push(97).op(opCALLDATALOAD).push(8).op(opSHR).push(0xff).op(opAND).push(0).op(opMSTORE8)
+	a.push(0).push(0).push(33).push(0).op(opCALLVALUE)
+	argB()
+	a.push(100000).op(opCALL).op(opPOP)
+	a.op(opSTOP)
 	return a.bytes()
 }
 
@@ -433,6 +449,22 @@ func (g *Gen) draftEVM(kind string, h int64, sh *MState, P *DParams, price *big.
 			{"destructself", callData(17, nil, nil, nil), val(), false},
 			{"unknown-selector", callData(200, nil, nil, nil), new(big.Int), true},
 		}
+		// multicall patterns: (failing call, then a paying call to the same address), (self-destruct of another
+		// contract to a fresh beneficiary, then a failing call), (two successes)
+		x, y := anyTarget(), anyTarget()
+		mc := func(name string, a1 []byte, s1 byte, a2 []byte, s2 byte, w []byte, v *big.Int) cs {
+			d := callData(18, a1, a2, w)
+			d = append(d, wordU(uint64(s1)|uint64(s2)<<8)...)
+			return cs{name, d, v, false}
+		}
+		cands = append(cands,
+			mc("multicall-fail-then-pay-same", x, 5, x, 0, nil, val()),
+			mc("multicall-revert-then-pay-same", x, 4, x, 0, wordU(7), val()),
+			mc("multicall-destruct-then-fail", x, 7, y, 5, sha256sum([]byte(fmt.Sprint("benef", g.seq)))[:20], new(big.Int)),
+			mc("multicall-destruct-then-revert", x, 7, y, 4, g.pick(g.Fresh).Addr, new(big.Int)),
+			mc("multicall-pay-pay", x, 0, y, 0, nil, val()),
+			mc("multicall-oog-then-pay", x, 6, x, 0, nil, val()),
+		)
 		ch := cands[g.rng.Intn(len(cands))]
 		d := mk(rctypes.TRX_CONTRACT, k, to, ch.value, &rctypes.TrxPayloadContract{Data: ch.data}, "call:"+ch.name)
 		d.tx.Gas = gasBudget
